@@ -941,9 +941,18 @@ def _embed(outer, inner, use_varargs=True, use_varkwargs=True, depth=1):
     # before combining the maps, so that an inner star parameter of the
     # same name keeps its own
     o_named_src = dict(o_src)
-    if o_varargs and use_varargs:
+    # (an intermediate result of embed(a, b, c) may have a star parameter
+    # spelled like another of its parameters: the entry is the latter's)
+    o_kept = set(_pnames(o_posargs))
+    o_kept.update(_pnames(o_pokargs))
+    o_kept.update(o_kwoargs)
+    if o_varargs and not use_varargs:
+        o_kept.add(o_varargs.name)
+    if o_varkwargs and not use_varkwargs:
+        o_kept.add(o_varkwargs.name)
+    if o_varargs and use_varargs and o_varargs.name not in o_kept:
         o_named_src.pop(o_varargs.name, None)
-    if o_varkwargs and use_varkwargs:
+    if o_varkwargs and use_varkwargs and o_varkwargs.name not in o_kept:
         o_named_src.pop(o_varkwargs.name, None)
     src = dict(i_src, **o_named_src)
 
